@@ -12,7 +12,7 @@ if [ "$1" = "-e" ]; then
   (cd /repo && diff -u "$3" "$scratch/$3" | head -20)
   shift 3
 else
-  (cd "$scratch" && patch -p1 -s < "$1") || { echo "patch failed"; exit 2; }
+  (p=$(readlink -f "$1"); cd "$scratch" && patch -p1 -s < "$p") || { echo "patch failed"; exit 2; }
   shift
 fi
 (cd "$scratch" && go build ./... ) || { echo "MUTANT DOES NOT COMPILE"; exit 3; }
